@@ -21,6 +21,7 @@ import (
 
 func init() {
 	executors["hs"] = execHs
+	executors["hs2"] = execHs2
 	scenarios["hs"] = genHs
 }
 
@@ -72,29 +73,59 @@ func runHandshake(o hsOpts, reply func(i int, p []byte) (r []byte, lost bool, ok
 		IntegrityAlgorithm: ipmi.IntegrityAlgorithm(o.integ), ConfidentialityAlgorithm: ipmi.ConfidentialityAlgorithm(o.conf)}}, reply)
 }
 
-func runHandshakeWith(o hsOpts, suites []ipmi.CipherSuite, reply func(i int, p []byte) (r []byte, lost bool, ok bool)) *hsRun {
-	run := &hsRun{}
-	recv := make([]byte, 512)
-	ctx, cancel := context.WithTimeout(context.Background(), 10*time.Second)
-	defer cancel()
+// hsConn is one connection (one transport, one receive buffer) on which any number of handshakes are run one after
+// another; pass / kg are the caller's credential buffers, REUSED (overwritten in place) from handshake to handshake
+type hsConn struct {
+	t      *bmc.V2SessionlessTransport
+	recv   []byte
+	run    *hsRun
+	reply  func(i int, p []byte) (r []byte, lost bool, ok bool)
+	cancel context.CancelFunc
+	pass   []byte
+	kg     []byte
+}
+
+func newHsConn() *hsConn {
+	c := &hsConn{recv: make([]byte, 512), pass: make([]byte, 0, 64), kg: make([]byte, 0, 64)}
 	send := func(_ context.Context, p []byte) ([]byte, error) {
-		r, lost, ok := reply(len(run.sent), p)
+		r, lost, ok := c.reply(len(c.run.sent), p)
 		if !ok {
-			cancel()
+			c.cancel()
 			return nil, context.Canceled
 		}
-		run.sent = append(run.sent, append([]byte(nil), p...))
+		c.run.sent = append(c.run.sent, append([]byte(nil), p...))
 		if lost {
-			run.replies = append(run.replies, nil)
+			c.run.replies = append(c.run.replies, nil)
 			return nil, errors.New("timeout")
 		}
-		run.replies = append(run.replies, append([]byte(nil), r...))
-		for i := range recv {
-			recv[i] = 0xEE
+		c.run.replies = append(c.run.replies, append([]byte(nil), r...))
+		for i := range c.recv {
+			c.recv[i] = 0xEE
 		}
-		return recv[:copy(recv, r)], nil
+		return c.recv[:copy(c.recv, r)], nil
 	}
-	t := bmc.VerifNewV2SessionlessTransport(send, 50*time.Millisecond, &backoff.ZeroBackOff{})
+	c.t = bmc.VerifNewV2SessionlessTransport(send, 50*time.Millisecond, &backoff.ZeroBackOff{})
+	return c
+}
+
+func runHandshakeWith(o hsOpts, suites []ipmi.CipherSuite, reply func(i int, p []byte) (r []byte, lost bool, ok bool)) *hsRun {
+	return newHsConn().handshake(o, suites, reply)
+}
+
+func (c *hsConn) handshake(o hsOpts, suites []ipmi.CipherSuite, reply func(i int, p []byte) (r []byte, lost bool, ok bool)) *hsRun {
+	run := &hsRun{}
+	c.run, c.reply = run, reply
+	ctx, cancel := context.WithTimeout(context.Background(), 10*time.Second)
+	c.cancel = cancel
+	defer cancel()
+	t := c.t
+	// the credentials live in buffers the caller reuses: the same backing arrays, overwritten in place
+	c.pass = append(c.pass[:0], o.pass...)
+	c.kg = append(c.kg[:0], o.kg...)
+	o.pass, o.kg = c.pass, c.kg
+	if len(o.kg) == 0 {
+		o.kg = nil
+	}
 	old := rand.Reader
 	rand.Reader = io.Reader(&cycleReader{b: o.rm})
 	defer func() { rand.Reader = old }()
@@ -140,8 +171,33 @@ func runHandshakeWith(o hsOpts, suites []ipmi.CipherSuite, reply func(i int, p [
 }
 
 func execHs(a []string) (string, string) {
+	return execHsOn(newHsConn(), a)
+}
+
+// hs2 <12 hs args> / <12 hs args> / …: several handshakes one after another on ONE connection, the caller reusing its
+// password and KG buffers (overwritten in place between the calls); each must behave exactly as on a fresh connection
+func execHs2(a []string) (string, string) {
+	c := newHsConn()
+	var outs []string
+	verdict := ""
+	for len(a) >= 12 {
+		o, v := execHsOn(c, a[:12])
+		outs = append(outs, o)
+		if v != "" && verdict == "" {
+			verdict = fmt.Sprintf("handshake %d on the connection: %s", len(outs), v)
+		}
+		a = a[12:]
+		if len(a) > 0 && a[0] == "/" {
+			a = a[1:]
+		}
+	}
+	return strings.Join(outs, " ; "), verdict
+}
+
+func execHsOn(c *hsConn, a []string) (string, string) {
 	o, script := parseHsOpts(a)
-	run := runHandshake(o, func(i int, _ []byte) ([]byte, bool, bool) {
+	run := c.handshake(o, []ipmi.CipherSuite{{AuthenticationAlgorithm: ipmi.AuthenticationAlgorithm(o.auth),
+		IntegrityAlgorithm: ipmi.IntegrityAlgorithm(o.integ), ConfidentialityAlgorithm: ipmi.ConfidentialityAlgorithm(o.conf)}}, func(i int, _ []byte) ([]byte, bool, bool) {
 		if i >= len(script) {
 			return nil, false, false
 		}
@@ -455,5 +511,52 @@ func genHs(g *genCtx) {
 		o := base()
 		o.auth, o.integ, o.conf = s[0], s[1], s[2]
 		emit('P', true, o, append(live(o, echo), "L"))
+	}
+	// several handshakes on ONE connection with the caller's credential buffers reused (overwritten in place): right
+	// password then wrong password (same length and other lengths), wrong then right, another suite / KG / user the second
+	// time, a failed first attempt (lost replies, wrong BMC password) before a good one
+	pairs := 40
+	if g.thorough() {
+		pairs = 600
+	}
+	for n := 0; n < pairs; n++ {
+		mk := func() hsOpts {
+			o := base()
+			o.auth, o.integ = []byte{1, 2, 3}[g.rng.Intn(3)], []byte{1, 2, 4}[g.rng.Intn(3)]
+			o.user = rb(g.rng.Intn(17))
+			o.pass = rb([]int{6, 6, 6, 1, 20, g.rng.Intn(21)}[g.rng.Intn(6)])
+			if g.rng.Intn(3) == 0 {
+				o.kg = rb(20)
+			}
+			o.lookup = g.rng.Intn(2) == 0
+			o.bmcPass, o.bmcKG = o.pass, o.kg
+			return o
+		}
+		a := mk()
+		b := mk()
+		switch n % 5 {
+		case 0: // same everything, but the caller's password changed to a wrong one of the SAME length
+			b = a
+			b.rm = rb(16)
+			b.pass = rb(len(a.pass))
+		case 1: // wrong first, right second
+			b = a
+			b.rm = rb(16)
+			a.pass = rb(len(b.pass))
+		case 2: // only the KG changes
+			b = a
+			b.rm = rb(16)
+			b.kg = rb(20)
+		}
+		var args []string
+		args = append(args, a.args(live(a, echo))...)
+		args = append(args, "/")
+		args = append(args, b.args(live(b, echo))...)
+		if n%7 == 0 {
+			c := mk()
+			args = append(args, "/")
+			args = append(args, c.args(append(live(c, echo)[:1], "L", "L"))...)
+		}
+		g.emit(Op{Class: 'P', NonTrivial: true, Kind: "hs2", Args: args})
 	}
 }
